@@ -419,6 +419,9 @@ func NewDecoder(n int, sep string, r io.Reader) (sts.PayloadDecoder, error) {
 	}
 	pr, pw := io.Pipe()
 	go func() {
+		// Always close the pipe so that a short or malformed header ends the
+		// JSON decoding with an error instead of blocking it forever
+		defer pw.Close()
 		if n > 0 {
 			_, _ = io.CopyN(pw, r, int64(n))
 		} else {
